@@ -18,6 +18,7 @@ import (
 	"bytes"
 	"fmt"
 	"os"
+	"regexp"
 	"strings"
 	"time"
 
@@ -28,6 +29,7 @@ import (
 
 type prop struct {
 	corpus []corpusFile
+	lib    *shapeLib
 }
 
 func New() core.Prop {
@@ -138,7 +140,7 @@ func checkTotalDet(line, text string, o *core.Outcome) adaptRes {
 		return r
 	case r.panicked:
 		o.Tags = append(o.Tags, "adapt:panic")
-		o.Failures = append(o.Failures, core.Failure{Case: line, Class: "adapter-panic",
+		o.Failures = append(o.Failures, core.Failure{Case: line, Class: panicClass(r.panicMsg),
 			What: fmt.Sprintf("adapter panicked: %s; input %q", clip(r.panicMsg, 300), clip(text, 400))})
 		return r
 	}
@@ -156,6 +158,22 @@ func checkTotalDet(line, text string, o *core.Outcome) adaptRes {
 		}
 	}
 	return r
+}
+
+var panicFileRe = regexp.MustCompile(` ([a-z_]+\.go):\d+$`)
+
+// panicClass: `adapter-panic` plus, when the innermost caddy frame is known, its file and the
+// normalised message (so that one known crash does not excuse a different one).
+func panicClass(msg string) string {
+	m := panicFileRe.FindStringSubmatch(msg)
+	if m == nil {
+		return "adapter-panic"
+	}
+	what := msg
+	if i := strings.Index(what, " @ "); i >= 0 {
+		what = what[:i]
+	}
+	return "adapter-panic:" + m[1] + ":" + signature(strings.ReplaceAll(what, "-", "neg"), 8)
 }
 
 func firstDiff(a, b []byte) string {
@@ -242,7 +260,7 @@ func checkValid(line, text string, js []byte, lenient bool, o *core.Outcome) {
 	case v.ok:
 		o.Tags = append(o.Tags, "valid:ok")
 	default:
-		cls, kind := classifyInvalid(v)
+		cls, kind := classifyInvalid(v, text)
 		if kind == "env" {
 			o.Tags = append(o.Tags, "valid:env-"+cls)
 			return
